@@ -300,7 +300,7 @@ func (v *Verifier) VerifyPair(forkKey, stdKey string, alias [][2]string) (run *F
 	}
 	ctx := NewCtx()
 	e := &Engine{prog: v.prog, pkgs: v.pkgs, cs: NewContractSet(), ctx: ctx, lay: NewLayouter(ctx, false), maxPaths: 4000,
-		inputs: map[string]Term{}, trustedUsed: map[string]bool{}, callees: map[string]bool{}, subFuns: map[string]bool{}, subCodes: map[string]int{}}
+		inputs: map[string]Term{}, trustedUsed: map[string]bool{}, callees: map[string]bool{}, subFuns: map[string]bool{}, subCodes: map[string]int{}, adtTypes: map[string]types.Type{}}
 	e.rel = &relRun{alias: alias}
 	e.funcName = forkKey + "~" + stdKey
 	e.next0 = ctx.Const("next0", SInt)
